@@ -78,7 +78,9 @@ def write_overlay(workdir, spec):
         for f in sorted(glob.glob(os.path.join(hdir, name, "*.go"))):
             repl[os.path.join(REPO, "internal", "zzverif", name, os.path.basename(f))] = f
 
-    add_pkg("vlib")
+    add_pkg("vcore")
+    if "pkg" in spec:
+        add_pkg("vlib")
     for extra in spec.get("libs", []):
         add_pkg(extra)
     if "pkg" in spec:
